@@ -15,3 +15,6 @@ package session
 //@   final[C04,C06,C20] sessions, expirySeconds
 //@   guarded[C04,C20] sessions by mu
 //@   invariant self.sessions != nil
+//@
+//@ type Session
+//@   guarded[C20] Data by mu
